@@ -94,7 +94,10 @@ def run(ctx):
         attrs.append("  x%d : BINARY(%s) FIXED;" % (i, b))
     # text that is carried into the generated files verbatim: string literals must be copied, never interpreted
     # (conversion specifications of C format strings, back-slashes, quotes)
-    texts = ["item %d of %d", "%s and %s", "100%", "%5.2f %x %c %p", "back\\\\slash \\\\n", "%%"]
+    # (and characters that UTF-8 encodes in several bytes, in literals long enough to reach the line limit: the layout
+    # must not depend on how the locale counts them)
+    texts = ["item %d of %d", "%s and %s", "100%", "%5.2f %x %c %p", "back\\\\slash \\\\n", "%%",
+             "na\u00efve caf\u00e9 \u2013 \u00bd " * 7, "\u00e4\u00f6\u00fc\u00df" * 30, "\u00e9"]
     bounds_body = ("FUNCTION fb(p : INTEGER) : INTEGER; RETURN (p); END_FUNCTION;\nENTITY withbounds;\n" + "\n".join(attrs)
                    + "\n  lbl : STRING;\nDERIVE\n" + "\n".join("  dt%d : STRING := '%s';" % (i, t) for i, t in enumerate(texts))
                    + "\nWHERE\n" + "\n".join("  wt%d : lbl <> '%s';" % (i, t) for i, t in enumerate(texts)) + "\nEND_ENTITY;\n"
@@ -127,7 +130,7 @@ def run(ctx):
              ("exppp", os.path.join(bdir, "bin", "exppp")), ("schema_scanner", scan)]
     jobs = []
     BASE = {"aslr": "on", "cwd": "short", "path": "abs", "env": "small", "locale": "C", "heap": "default", "prior": "none"}
-    FAR = {"aslr": "off", "cwd": "long/deeper/dir", "path": "dotted", "env": "big", "locale": "de_DE.UTF-8", "heap": "perturb", "prior": "same"}
+    FAR = {"aslr": "off", "cwd": "long/deeper/dir", "path": "dotted", "env": "big", "locale": "C.UTF-8", "heap": "perturb", "prior": "same"}
     for name, text in inputs:
         for tname, tbin in tools:
             for k, c in enumerate(cfgs):
@@ -143,7 +146,7 @@ def run(ctx):
         cwd = mkdir(os.path.join(base, c["cwd"], "out"))
         srcdir = mkdir(os.path.join(base, "src" if c["cwd"] == "short" else "some/other/place"))
         src = os.path.join(srcdir, "model_schema_file.exp")
-        open(src, "w").write(text)
+        open(src, "w", encoding="utf-8").write(text)
         if c["path"] == "abs":
             arg = src
         elif c["path"] == "rel":
@@ -187,7 +190,7 @@ def run(ctx):
             if rc != 0:
                 # is the input at fault (harness error) or the tool?  The checker decides.
                 chk = os.path.join(wd, "chk_%s.exp" % name)
-                open(chk, "w").write(dict(inputs)[name])
+                open(chk, "w", encoding="utf-8").write(dict(inputs)[name])
                 pc = subprocess.run([os.path.join(bdir, "bin", "check-express"), chk], stdout=subprocess.PIPE, stderr=subprocess.PIPE, text=True, timeout=120)
                 if pc.returncode != 0:
                     raise InfraError("input %s is rejected by check-express - the harness' input is wrong: %s" % (name, pc.stderr[:300]))
